@@ -99,6 +99,10 @@ Definition immb (g : graph) (v : view) (e : hexpr) (c : nat) : bool :=
   Nat.eqb c 0 || existsb (fun h => is_anc g c h) (heval v e).
 
 (** * Commands *)
+
+(** --insert-after / --insert-before locations ([compute_commit_location] l.3584-3668). *)
+Inductive loc := LAfter (x : nat) | LBefore (y : nat) | LBoth (x y : nat).
+
 Inductive cmd :=
 | CDescribe (ts : list nat)          (* jj describe -r ts -m <fresh text> *)
 | CAbandon (ts : list nat)           (* jj abandon ts *)
@@ -112,6 +116,9 @@ Inductive cmd :=
 | CCommit                            (* jj commit -m <text> *)
 | CBookmarkSet (b : N) (c : nat)     (* jj bookmark set b -r c --allow-backwards *)
 | CTagSet (t : N) (c : nat)          (* jj tag set t -r c --allow-move *)
+| CNewLoc (l : loc)                  (* jj new -A x [-B y] *)
+| CRebaseLoc (z : nat) (l : loc)     (* jj rebase -r z -A x / -B y / -A x -B y *)
+| CDupLoc (z : nat) (l : loc)        (* jj duplicate z -A x / -B y / -A x -B y *)
 | CRestore (from into : nat)         (* jj restore --from --into *)
 | CMetaedit (ts : list nat)          (* jj metaedit --update-author-timestamp ts *)
 | CSnapshot                          (* a command that only snapshots a modified working copy *)
@@ -123,9 +130,22 @@ Definition range_roots (g : graph) (d b : nat) : list nat :=
   let inr := fun c => is_anc g c b && negb (is_anc g c d) in
   filter (fun c => inr c && negb (existsb inr (parents g c))) (seq 0 (S b)).
 
+(** The new children of an inserted commit, which [compute_commit_location] passes to
+    [check_rewritable] (l.3652-3655): the visible children of [x] for -A alone, [y] for -B and
+    for the combined form. *)
+Definition loc_children (g : graph) (v : view) (l : loc) : list nat :=
+  match l with
+  | LAfter x => filter (fun c => visb g v c && memn x (parents g c)) (seq 0 (length g))
+  | LBefore y => [y]
+  | LBoth _ y => [y]
+  end.
+
 (** The commits a command passes to [check_rewritable]. *)
-Definition check_targets (g : graph) (c : cmd) : list nat :=
+Definition check_targets (g : graph) (v : view) (c : cmd) : list nat :=
   match c with
+  | CNewLoc l => loc_children g v l
+  | CRebaseLoc z l => z :: loc_children g v l
+  | CDupLoc _ l => loc_children g v l
   | CDescribe ts => ts
   | CAbandon ts => ts
   | CRebaseS ss _ => ss
@@ -141,15 +161,15 @@ Definition check_targets (g : graph) (c : cmd) : list nat :=
 
 (** [check_rewritable]: true = refused. *)
 Definition refuses (g : graph) (v : view) (e : hexpr) (c : cmd) : bool :=
-  existsb (immb g v e) (check_targets g c).
+  existsb (immb g v e) (check_targets g v c).
 
 (** Commits whose descendants (inclusive) the command may rewrite or abandon.  [jj commit] and
     a snapshot of a mutable working-copy commit rewrite the working-copy commit without
     consulting [check_rewritable]. *)
-Definition rewrite_roots (g : graph) (wc : option nat) (c : cmd) : list nat :=
+Definition rewrite_roots (g : graph) (v : view) (wc : option nat) (c : cmd) : list nat :=
   match c with
   | CCommit | CSnapshot => match wc with Some w => [w] | None => [] end
-  | _ => check_targets g c
+  | _ => check_targets g v c
   end.
 
 (** lib/src/repo.rs [maybe_abandon_wc_commit]: leaving a working-copy commit abandons it when
@@ -159,6 +179,7 @@ Definition leaves_wc (c : cmd) (w : nat) : bool :=
   | CEdit x => negb (Nat.eqb x w)
   | CNew ps => negb (memn w ps)        (* a child of [w] keeps it from being a head *)
   | CNewBefore _ | CCommit => true
+  | CNewLoc l => match l with LAfter x | LBoth x _ => negb (Nat.eqb x w) | LBefore _ => true end
   | _ => false
   end.
 Definition wc_abandoned (r : repo) (ws : N) (c : cmd) (w : nat) : bool :=
@@ -188,6 +209,13 @@ Record event := mk_event {
     [finish_transaction] alike. *)
 Definition eff_cfg (ev : event) : hexpr := if e_override ev then HNone else e_cfg ev.
 
+(** [jj duplicate] records the copied commit as predecessor of the copy although it is not
+    rewritten (it stays visible, unchanged): such an entry is not a rewrite. *)
+Definition dup_source (c : cmd) (x : nat) : bool :=
+  match c with CDupLoc z _ => Nat.eqb x z | _ => false end.
+Definition rew_eff (ev : event) : list nat :=
+  filter (fun x => negb (dup_source (e_cmd ev) x && memn x (e_vis_post ev))) (e_rewritten ev).
+
 Definition pair_nat_eqb (p q : N * nat) : bool := N.eqb (fst p) (fst q) && Nat.eqb (snd p) (snd q).
 Definition view_eqb (a b : view) : bool :=
   list_eqb Nat.eqb (v_heads a) (v_heads b) && list_eqb pair_nat_eqb (v_bms a) (v_bms b)
@@ -208,7 +236,7 @@ Definition exact_kind (c : cmd) : bool :=
 Definition nominal_wc (c : cmd) (w : nat) (hidden : list nat) : option nat :=
   match c with
   | CEdit x => Some x
-  | CNew _ | CNewBefore _ | CCommit | CSnapshot | CWorkspaceAdd => None
+  | CNew _ | CNewBefore _ | CNewLoc _ | CCommit | CSnapshot | CWorkspaceAdd => None
   | _ => if memn w hidden then None else Some w
   end.
 
@@ -223,8 +251,8 @@ Definition accept_ok (r : repo) (ev : event) : bool :=
   let wc := wc_of v (e_ws ev) in
   let pre := vis_list g v in
   let hidden := filter (fun x => negb (visb g' v' x)) pre in
-  let rew := e_rewritten ev in
-  let roots := rewrite_roots g wc c in
+  let rew := rew_eff ev in
+  let roots := rewrite_roots g v wc c in
   let snap_child := match c, wc with CSnapshot, Some w => immb g v e w | _, _ => false end in
   (* [rebase_mutable_descendants] (l.2960-2978): the descendant rebase skips commits that are
      immutable in the base repo, so below the roots only mutable commits are rewritten *)
@@ -310,7 +338,7 @@ Fixpoint run (r : repo) (evs : list event) : option repo :=
 (** The known class [wc-commit-immutable-at-start]: the commit is the invoking workspace's
     working-copy commit at command start and the command acts on it implicitly. *)
 Definition implicit_wc_cmd (c : cmd) : bool :=
-  match c with CCommit | CNew _ | CNewBefore _ | CEdit _ => true | _ => false end.
+  match c with CCommit | CNew _ | CNewBefore _ | CNewLoc _ | CEdit _ => true | _ => false end.
 Definition exempt (g : graph) (wc : option nat) (c : cmd) (imm_pre : list nat) (x : nat) : bool :=
   match wc with
   | Some w => implicit_wc_cmd c && memn w imm_pre
@@ -321,7 +349,7 @@ Definition exempt (g : graph) (wc : option nat) (c : cmd) (imm_pre : list nat) (
 (** [viol ev x]: [x] was shown immutable before the command and is a recorded predecessor,
     or no longer visible afterwards. *)
 Definition viol (ev : event) (x : nat) : bool :=
-  memn x (e_imm_pre ev) && (memn x (e_rewritten ev) || negb (memn x (e_vis_post ev))).
+  memn x (e_imm_pre ev) && (memn x (rew_eff ev) || negb (memn x (e_vis_post ev))).
 
 Definition event_okb (strict : bool) (g : graph) (v : view) (ev : event) : bool :=
   (e_override ev
